@@ -7,6 +7,8 @@
 #include <vector>
 #include <sys/stat.h>
 #include <unistd.h>
+#include <fcntl.h>
+#include <sys/syscall.h>
 extern "C" int harness_main(void);
 static FILE* g_proto;
 static std::vector<long> g_vec; static size_t g_pos; static int g_fail; static int g_frozen; static long g_events;
@@ -24,6 +26,10 @@ void verif_obs(long v) { fprintf(g_proto, "OBS %ld\n", v); }
 void verif_note(const char* t) { if (getenv("VERIF_DEBUG")) fprintf(g_proto, "NOTE %s\n", t); }
 void ir2c_global_ctors(void) {}
 unsigned long verif_file_size(const char* p) { struct stat st; if (stat(p, &st) != 0) return (unsigned long)-1; return st.st_size; }
+static void copy_file(const char* from, const char* to) { FILE* a = fopen(from, "rb"); if (!a) { remove(to); return; } std::string data; int c; while ((c = fgetc(a)) != EOF) data.push_back((char)c); fclose(a);
+  int fd = creat(to, 0644); if (fd >= 0) { size_t off = 0; while (off < data.size()) { ssize_t w = pwrite(fd, data.data() + off, data.size() - off, off); if (w <= 0) break; off += (size_t)w; } close(fd); } }
+void verif_vfs_save(int slot) { char b[64]; fflush(NULL); snprintf(b, sizeof b, ".verif_save_%d_log", slot); copy_file(".ninja_log", b); snprintf(b, sizeof b, ".verif_save_%d_deps", slot); copy_file(".ninja_deps", b); }
+void verif_vfs_restore(int slot) { char b[64]; fflush(NULL); snprintf(b, sizeof b, ".verif_save_%d_log", slot); copy_file(b, ".ninja_log"); snprintf(b, sizeof b, ".verif_save_%d_deps", slot); copy_file(b, ".ninja_deps"); }
 unsigned long verif_file_hash(const char* p) { FILE* f = fopen(p, "rb"); if (!f) return (unsigned long)-1; unsigned long h = 1469598103UL; int c; while ((c = fgetc(f)) != EOF) h = (unsigned long)(((unsigned __int128)h * 1099511UL + (unsigned long)c + 1) % 2305843009213693951UL); fclose(f); return h; }
 // ---- the same persistence-event model as the engine's VFS, on the real file system (linked with -Wl,--wrap=...):
 // output streams opened by the code under test are buffered here; a flush of a non-empty buffer is one atomic persistence event.
